@@ -3,7 +3,8 @@
    assumed valid parents-first listing. *)
 From RJ Require Import Base.Prelude Base.OrderedPlan Model.Settings Model.Core Model.Fs Model.Sync
   Spec.PlanSpec Spec.Mirror Proofs.PathLemmas Proofs.MirrorProofs Proofs.PlanCProofs Proofs.InstanceProofs
-  Proofs.ExecProofs Proofs.ConfineAll Proofs.WalkBridge.
+  Proofs.ExecProofs Proofs.ConfineAll Proofs.WalkBridge Proofs.CrashProofs Proofs.CrashMain Proofs.WfProofs Proofs.KillEvents
+  Proofs.IdemMain Proofs.TouchedProofs Proofs.ConfirmProofs Proofs.ConsentAll.
 From RJ Require Model.Walker Proofs.WalkerProofs.
 
 Section Walked.
@@ -94,5 +95,95 @@ Proof.
   destruct (walked_valid (d_fs D) ld HwD HD) as [HvD HpD].
   apply (mirror_theorem now_z incl normalize chunker chunker_ok dest_fl cfg S D ans bits ls ld ft); try assumption.
   apply (no_run_goes_through_a_link now_z incl normalize chunker); assumption.
+Qed.
+
+(* C08 with walked listings, end to end: run a sync whose listings come from arbitrary executions of the walk,
+   under ANY fault plan; let it end (Ok or failed) or kill the doer in any state a kill can leave behind.
+   That state is a well-formed tree satisfying Good in which nothing went through a link, and a second sync
+   started by a fresh doer on it - again with walked listings - mirrors the source whenever it returns Ok
+   without skips; every source file then has its bytes and time on the destination (up to C01's own
+   exemption of a file that carried the source's time before the first run). *)
+Theorem walked_crash_states cfg S D ans bits ls ld ft s :
+  wf_fs S -> wf_fs (d_fs D) -> unique_keys (d_fs D) -> d_open D = None -> no_through (d_events D) ->
+  walked S ls -> walked (d_fs D) ld ->
+  (In s (sync_kill_states now_z normalize chunker cfg S D ans bits ls ld ft) \/
+   s = r_dest (sync_one cfg S D ans bits ls ld ft)) ->
+  Good S (d_fs D) s /\ wf_fs (d_fs s) /\ unique_keys (d_fs s) /\ no_through (d_events s).
+Proof.
+  intros HwS HwD HuD Hop Hnt0 HS HD Hs.
+  pose proof (walked_sync_never_through cfg S D ans bits ls ld ft HwS HwD Hnt0 HS HD) as Hnt.
+  destruct (crash_safe now_z normalize chunker chunker_ok cfg S D ans bits ls ld ft Hop) as [G1 G2].
+  assert (Hwfu : (forall x, In x (sync_kill_states now_z normalize chunker cfg S D ans bits ls ld ft) -> wfu (d_fs x)) /\
+                 wfu (d_fs (r_dest (sync_one cfg S D ans bits ls ld ft)))).
+  { unfold sync_kill_states. rewrite (sync_one_runs_plan now_z normalize chunker).
+    apply (steps_wfu (cf_fl cfg) ft). rewrite (sync_plan_start now_z normalize chunker). split; assumption. }
+  destruct Hwfu as [K1 K2].
+  assert (Hse : no_through (d_events s)).
+  { destruct Hs as [Hin| ->]; [|exact Hnt].
+    unfold sync_kill_states in Hin. destruct (steps_states_before_final (cf_fl cfg) ft _ _ _ Hin) as (l & El).
+    rewrite (sync_one_runs_plan now_z normalize chunker) in Hnt. rewrite El in Hnt. eapply nt_prefix; exact Hnt. }
+  assert (Hw : wfu (d_fs s)) by (destruct Hs as [Hin| ->]; [apply K1; exact Hin|exact K2]).
+  destruct Hw as [Hw Hu].
+  split; [destruct Hs as [Hin| ->]; [apply G1; assumption|apply G2; exact Hnt]|]. auto.
+Qed.
+
+Theorem walked_rerun_repairs dest_fl cfg S D ans bits ls ld ft s cfg2 ans2 bits2 ls2 ld2 ft2 :
+  wf_fs S -> src_times_set S -> links_roundtrip normalize dest_fl S ->
+  wf_fs (d_fs D) -> unique_keys (d_fs D) -> d_open D = None -> no_through (d_events D) ->
+  walked S ls -> walked (d_fs D) ld ->
+  (In s (sync_kill_states now_z normalize chunker cfg S D ans bits ls ld ft) \/
+   s = r_dest (sync_one cfg S D ans bits ls ld ft)) ->
+  walked S ls2 -> walked (d_fs s) ld2 ->
+  let r2 := sync_one cfg2 S (reboot s) ans2 bits2 ls2 ld2 ft2 in
+  r_ok r2 = true -> r_skipped r2 = [] -> r_root_skipped r2 = false -> cf_dry cfg2 = false -> cf_fl cfg2 = dest_fl ->
+  mirror now_z incl normalize (cf_diff cfg2) dest_fl S (d_fs s) (d_fs (r_dest r2)) /\
+  forall p t b, takes_part incl S p -> fget S p = Some (NFile (TSet t) b) -> (forall k, now_z k <> t) ->
+    fget (d_fs (r_dest r2)) p = Some (NFile (TSet t) b) \/
+    exists b0, fget (d_fs D) p = Some (NFile (TSet t) b0) /\ fget (d_fs (r_dest r2)) p = Some (NFile (TSet t) b0).
+Proof.
+  intros HwS Hts Hlk HwD HuD Hop Hnt0 HS HD Hs HS2 HD2. cbv zeta. intros Hok Hsk Hrs Hdry Hfl.
+  destruct (walked_crash_states cfg S D ans bits ls ld ft s HwS HwD HuD Hop Hnt0 HS HD Hs) as (HG & Hws & Hus & Hnts).
+  destruct (walked_valid S ls2 HwS HS2) as [HvS _].
+  destruct (walked_valid (d_fs s) ld2 Hws HD2) as [HvD _].
+  apply (rerun_repairs now_z incl normalize chunker chunker_ok dest_fl cfg2 S (d_fs D) s ans2 bits2 ls2 ld2 ft2); try assumption.
+  apply (walked_sync_never_through cfg2 S (reboot s) ans2 bits2 ls2 ld2 ft2); try assumption; reflexivity.
+Qed.
+
+(* C04 with walked listings: after a sync that returned Ok without skips, a second one (its destination
+   listing again delivered by some execution of the walk over the tree the first one left) does nothing. *)
+Theorem walked_sync_twice dest_fl cfg S D ans bits ls ld ft ans2 bits2 ld2 ft2 :
+  wf_fs S -> src_times_set S -> links_roundtrip normalize dest_fl S ->
+  wf_fs (d_fs D) -> unique_keys (d_fs D) -> d_open D = None -> no_through (d_events D) ->
+  walked S ls -> walked (d_fs D) ld ->
+  let r := sync_one cfg S D ans bits ls ld ft in
+  r_ok r = true -> r_skipped r = [] -> r_root_skipped r = false -> cf_dry cfg = false -> cf_fl cfg = dest_fl ->
+  b_same (cf_b cfg) = BSkip ->
+  walked (d_fs (r_dest r)) ld2 ->
+  let r2 := sync_one cfg S (r_dest r) ans2 bits2 ls ld2 ft2 in
+  r_ok r2 = true /\ r_dest r2 = r_dest r /\ filter mutating (r_dest_trace r2) = [] /\
+  (forall p, ~ In (CGetFileContent p) (r_src_trace r2)) /\ r_prompts r2 = [] /\ stats_nothing (r_stats r2) = true.
+Proof.
+  intros HwS Hts Hlk HwD HuD Hop Hnt0 HS HD. cbv zeta. intros Hok Hsk Hrs Hdry Hfl Hsame HD2.
+  destruct (walked_crash_states cfg S D ans bits ls ld ft _ HwS HwD HuD Hop Hnt0 HS HD (or_intror eq_refl)) as (_ & Hw2 & _ & Hnt).
+  destruct (walked_valid S ls HwS HS) as [HvS _].
+  destruct (walked_valid (d_fs D) ld HwD HD) as [HvD _].
+  destruct (walked_valid _ ld2 Hw2 HD2) as [HvD2 _].
+  apply (sync_twice now_z incl normalize chunker chunker_ok dest_fl cfg S D ans bits ls ld ft ans2 bits2 ld2 ft2); assumption.
+Qed.
+
+(* C03 end to end with walked listings: a changed existing destination entry had its category's consent. *)
+Theorem walked_consent cfg S D ans bits ls ld :
+  wf_fs S -> wf_fs (d_fs D) -> d_open D = None ->
+  walked S ls -> walked (d_fs D) ld ->
+  let steps := snd (sync_plan now_z normalize chunker cfg S D ans bits ls ld) in
+  forall s, Touched (cf_fl cfg) S (d_fs D) (cmd_of_plan steps) (file_of_plan steps) s ->
+  forall p n, fget (d_fs D) p = Some n -> fget (d_fs s) p <> Some n ->
+    entry_consent cfg ans \/
+    ((exists m d m' d', n = NFile m d /\ fget (d_fs s) p = Some (NFile m' d')) /\ overwrite_consent cfg ans).
+Proof.
+  intros HwS HwD Hop HS HD.
+  destruct (walked_valid S ls HwS HS) as [HvS _].
+  destruct (walked_valid (d_fs D) ld HwD HD) as [HvD _].
+  exact (consent_end_to_end now_z incl normalize chunker cfg S D ans bits ls ld HvS HvD HwD Hop).
 Qed.
 End Walked.
